@@ -334,7 +334,7 @@ def tables_rule(rep: Report, prog: Program, resolver: Resolver, tables: Tables) 
     # from_superscript uses DIGITS and int
     fs = prog.func("formatting.from_superscript")
     txt = ast.unparse(fs.node)
-    rep.check("R13.4", "from_superscript", "DIGITS[" in txt and "int(" in txt, "from_superscript does not decode through DIGITS into int",
+    rep.check("R13.4", "from_superscript", ("DIGITS[" in txt or "DIGITS.__getitem__" in txt or "DIGITS.get(" in txt) and "int(" in txt, "from_superscript does not decode through DIGITS into int",
               fs.where())
     # join separator is one of _MULTIPLY's alternatives
     mul = tables.terminals.get("_MULTIPLY")
@@ -547,7 +547,8 @@ def term_prefix_guard(rep: Report, prog: Program) -> None:
     integral (Kibi*Milli is 2**22.96...).  A product of prefixes that reaches a term unguarded is
     rendered as a power the grammar cannot read back."""
     from ..cfg import CFG
-    fi = prog.func("formatting._unit_to_magnitude_and_terms")
+    from ..termwalk import term_splitter
+    fi = term_splitter(prog)
     cfg = CFG(fi.node)
     n = 0
     term_tuples: List[Tuple[ast.stmt, ast.Tuple]] = []
